@@ -28,7 +28,13 @@ def seeded():
         det = ("./check " + m["breaks_property"]) if cr.get("detected") else "**MISSED**"
         orc = ", ".join(o.replace("oracle=", "") for o in cr.get("oracles", [])[:3])
         rows.append(f"| {m['id']} | {m['breaks_property']} | {summary} | {det} | {orc} | {m.get('history', '')[:160]} |")
-    return "\n".join(rows)
+    total = len(rows) - 2
+    missed_first = sum(1 for r in rows[2:] if "MISSED" in r)
+    still = sum(1 for r in rows[2:] if "**MISSED**" in r)
+    head = (f"{total} seeded changes are filed; {total - still} are reported by their property's quick check"
+            f"{'' if not still else f' ({still} still missed)'}; {missed_first} of them were missed by the first version of the check and led to a stronger check "
+            "(see the note column and §13's text).\n\n")
+    return head + "\n".join(rows)
 
 
 def coverage():
